@@ -42,11 +42,16 @@ func c09GroupExprs() []c09Group {
 		// float-valued grouping expressions (only on the float universes)
 		{ref.Call("float", ref.Value()), "f", "f"},
 		{ref.Bin("*", ref.Call("float", ref.Value()), ref.Fl(0.5)), "h", "h"},
+		// the key's second byte: empty for one-byte keys (only on the universe with empty values)
+		{ref.Call("substr", ref.Key(), ref.N(1), ref.N(2)), "s2", "s2"},
 	}
 }
 
 // c09FloatGroup: indexes of the float-valued grouping expressions.
-func c09FloatGroup(gi int) bool { return gi >= 7 }
+func c09FloatGroup(gi int) bool { return gi == 7 || gi == 8 }
+
+// c09EmptyGroup: the grouping expression that can be empty.
+func c09EmptyGroup(gi int) bool { return gi == 9 }
 
 type c09Aggr struct {
 	text string
@@ -230,6 +235,8 @@ var c09Universes = []c09Universe{
 	{"bigint", []string{"a", "a1", "b", "b1"}, []string{"9007199254740993", "9007199254740992", "9007199254740994", "-9007199254740993"}, "int"},
 	// floats that agree in their first six decimals
 	{"nearfloat", []string{"a", "a1", "b", "b1"}, []string{"0.12345671", "0.12345672", "1.5", "-0.5"}, "float"},
+	// empty values and (through substr) empty group values: ('', 'b') and ('b', '') are different tuples
+	{"empties", []string{"a", "ab", "b", "bc"}, []string{"", "b", "c"}, ""},
 }
 
 func c09Stores(u c09Universe, maxPairs int) [][]store.Pair {
@@ -330,7 +337,26 @@ func c09Units(t core.Tier) []c09Unit {
 				nf++
 			}
 		}
+		ne := 0
+		for _, gi := range g {
+			if c09EmptyGroup(gi) {
+				ne++
+			}
+		}
 		for u := range c09Universes {
+			if ne > 0 || c09Universes[u].name == "empties" {
+				// the possibly-empty expression only on the universe with empty
+				// values, and that universe only with it, value, upper(value) and key
+				ok := ne > 0 && c09Universes[u].name == "empties"
+				for _, gi := range g {
+					if !c09EmptyGroup(gi) && gi != 0 && gi != 1 && gi != 4 {
+						ok = false
+					}
+				}
+				if !ok {
+					continue
+				}
+			}
 			if nf > 0 {
 				// float-valued grouping only where values are floats; alone or
 				// together with the key's first byte / the is_int flag
